@@ -26,8 +26,12 @@ INST = {
                                code=dict(alg="PaVeBaGP", type="IH", eps=2.0)),
     "pavgp-ih/pyobt": dict(prop="C01", Fam="paveba", Kind="box", W=PYO, SD=[0, 0], SC=[4, 4], AF=[20, 20], AE=[20, 20], G=3, N=2,
                            code=dict(alg="PaVeBaGP", type="IH", eps=4.0)),
+    "pavgp-ih/acute": dict(prop="C01", Fam="paveba", Kind="box", W=AC, SD=[0, 0], SC=[1, 1], AF=[2, 2], AE=[2, 2], G=3, N=2, mut=True,
+                           code=dict(alg="PaVeBaGP", type="IH", eps=5.0 / 3.0)),     # alpha = 3/5 for unit rows: shift alpha*eps = 1 ; gap bound sqrt(5) -> floor
     "partial-rect/orth": dict(prop="C01", Fam="paveba", Kind="box", W=O, SD=[0, 0], SC=[1, 1], AF=[1, 1], AE=[1, 1], G=2,
                               code=dict(alg="PaVeBaPartialGP", eps=1.0)),
+    "partial-rect/orth-eps2": dict(prop="C01", Fam="paveba", Kind="box", W=O, SD=[0, 0], SC=[2, 2], AF=[2, 2], AE=[2, 2], G=3, N=2, mut=True,
+                                   code=dict(alg="PaVeBaPartialGP", eps=2.0)),
     "paveba/orth": dict(prop="C01", Fam="paveba", Kind="ball", W=O, SD=[0, 0], SC=[0, 0], AF=[1, 1], AE=[1, 1], G=2, RadMax=1, Iso=True, mut=True,
                         code=dict(alg="PaVeBa", eps=1.0)),
     "paveba/pyobt": dict(prop="C01", Fam="paveba", Kind="ball", W=PYO, SD=[0, 0], SC=[0, 0], AF=[10, 10], AE=[10, 10], G=3, N=2, RadMax=2, Iso=True,
@@ -43,6 +47,8 @@ INST = {
                         code=dict(alg="VOGP", eps=math.sqrt(2.0))),
     "vogp/acute": dict(prop="C05", Fam="vogp", Kind="box", W=AC, SD=[1, 1], SC=[1, 1], AF=[1, 1], AE=[1, 1], G=2,
                        code=dict(alg="VOGP", eps=math.sqrt(2.0))),
+    "vogp/acute-g3": dict(prop="C05", Fam="vogp", Kind="box", W=AC, SD=[1, 1], SC=[1, 1], AF=[1, 1], AE=[1, 1], G=3, N=2, mut=True,
+                          code=dict(alg="VOGP", eps=math.sqrt(2.0))),
     "vogp/k3": dict(prop="C05", Fam="vogp", Kind="box", W=K3, SD=[1, 1], SC=[1, 1], AF=[1, 1, 1], AE=[1, 1, 1], G=2,
                     code=dict(alg="VOGP", eps=math.sqrt(2.0))),
     "vogp/orth-eps2": dict(prop="C05", Fam="vogp", Kind="box", W=O, SD=[2, 2], SC=[2, 2], AF=[2, 2], AE=[2, 2], G=3, N=2, mut=True,
@@ -84,8 +90,8 @@ def mc_cfg(I, N, inv, sim=False, mut=None):
     return mc, cfg
 
 
-MUTANTS = {"vogp": ["cover-from-pess", "cover-from-S", "disc-witness-any", "disc-all-S", "pess-over-S", "pdom-swapped"],
-           "paveba": ["A-without-U", "useful-from-U", "useful-swapped", "cover-swapped", "dom-swapped", "newU-in-cover"],
+MUTANTS = {"vogp": ["cover-from-pess", "cover-from-S", "disc-witness-any", "disc-all-S", "pess-over-S", "pdom-swapped", "dom-corner"],
+           "paveba": ["A-without-U", "useful-from-U", "useful-swapped", "cover-swapped", "dom-swapped", "newU-in-cover", "disc-witness-P", "cover-from-P", "dom-corner"],
            "auer": ["auer-p1-strict", "auer-no-holdback", "auer-holdback-all"]}
 
 
@@ -308,12 +314,20 @@ def run_prop(ctx, prop):
     def mut_search(arg):
         name, I, N, mut = arg
         mc, cfg = mc_cfg(I, N, inv, mut=mut)
-        return name, mut, tlc.run("MCSafe", cfg, files={"MCSafe.tla": mc}, workers=4, timeout=1500)
+        try:
+            return name, mut, tlc.run("MCSafe", cfg, files={"MCSafe.tla": mc}, workers=4, timeout=1500)
+        except tlc.MachineryError as e:
+            if "timeout" in str(e):
+                return name, mut, None
+            raise
 
     todo = [(name, I, N, m) for (name, I, N) in mutjobs for m in MUTANTS[I["Fam"]]]
     killed = {}
     with cf.ThreadPoolExecutor(max_workers=6) as ex:
         for name, mut, res in ex.map(mut_search, todo):
+            if res is None:
+                ctx.extra.setdefault("spec_mutant_searches_timed_out", []).append("%s/%s" % (name, mut))
+                continue
             ctx.add_tlc(res, "VOSafetyMut/%s/%s" % (name, mut))
             if res.violated == "NoDiff" and res.trace:
                 jobs.append((name, res.trace))
